@@ -289,6 +289,38 @@ func main() {
 			wg.Wait()
 			return []string{u}, []string{"INBOX"}
 		})
+		// 1b. a delivery into a folder that another session has just deleted: the delivery service that filed mail there a
+		// moment ago makes it anew (as a freshly started one does); other deliveries to the same store go on meanwhile
+		run("deliver-into-deleted-folder", k, func(rd *round, k int) ([]string, []string) {
+			u := existing()
+			base := ids(k + 2)
+			spam := func(id int) (bool, string) {
+				m := strings.Replace(msg(id), "\r\n\r\n", "\r\nX-Spam-Status: Yes, score=9.9\r\n\r\n", 1)
+				_, data := w.DeliverWith(w.Stor, "sender@example.org", []string{u}, m)
+				if len(data) == 1 {
+					return strings.HasPrefix(data[0], "2"), data[0]
+				}
+				return false, fmt.Sprint(data)
+			}
+			spam(base + k) // the service has filed into this user's Spam before (not judged: the DELETE takes it away)
+			c := w.Login(u)
+			del := c.Cmd("DELETE Spam")
+			c.Close()
+			rep.Hit("folder-deleted:" + del.Status())
+			var wg sync.WaitGroup
+			for i := 0; i < k-1; i++ {
+				wg.Add(1)
+				go func(i int) {
+					defer wg.Done()
+					ok, r := deliverVia(w.Stor, w, u, base+i)
+					rd.add(outcome{i, "deliver", base + i, u + "/INBOX", ok, r})
+				}(i)
+			}
+			ok, r := spam(base + k + 1)
+			rd.add(outcome{k, "deliver", base + k + 1, u + "/Spam", ok, r})
+			wg.Wait()
+			return []string{u, u}, []string{"INBOX", "Spam"}
+		})
 		// 2. the same through two managers
 		run("deliver-same-two-managers", k, func(rd *round, k int) ([]string, []string) {
 			u := existing()
